@@ -630,6 +630,31 @@ impl<'a> LoweringManager<'a> {
   }
 }
 
+/// String literals reach the backends with their escape sequences still in source form
+/// (the parser only resolves `\"`). The TS backend lets the JS template literal interpret them,
+/// so the data segment must hold the bytes that the escape sequences denote.
+fn unescape_string_literal(literal: &str) -> Vec<u8> {
+  let mut bytes = Vec::with_capacity(literal.len());
+  let mut iter = literal.bytes();
+  while let Some(b) = iter.next() {
+    if b != b'\\' {
+      bytes.push(b);
+      continue;
+    }
+    bytes.push(match iter.next().unwrap_or(b'\\') {
+      b't' => b'\t',
+      b'v' => 0x0b,
+      b'0' => 0,
+      b'b' => 0x08,
+      b'f' => 0x0c,
+      b'n' => b'\n',
+      b'r' => b'\r',
+      escaped => escaped,
+    });
+  }
+  bytes
+}
+
 pub(super) fn compile_lir_to_wasm(heap: &mut Heap, sources: lir::Sources) -> wasm::Module {
   let lir::Sources {
     symbol_table: source_symbol_table,
@@ -648,10 +673,10 @@ pub(super) fn compile_lir_to_wasm(heap: &mut Heap, sources: lir::Sources) -> was
   // Collect all string bytes into a single data segment
   let mut data_segment_bytes = Vec::new();
   for (idx, hir::GlobalString(content)) in source_global_variables.iter().enumerate() {
-    let content_str = content.as_str(heap);
+    let content_bytes = unescape_string_literal(content.as_str(heap));
     let offset = data_segment_bytes.len();
-    let length = content_str.len();
-    data_segment_bytes.extend_from_slice(content_str.as_bytes());
+    let length = content_bytes.len();
+    data_segment_bytes.extend_from_slice(&content_bytes);
     // Create a unique global name for this string (GLOBAL_STRING_0, GLOBAL_STRING_1, ...)
     let global_name = heap.alloc_string(format!("GLOBAL_STRING_{idx}"));
     string_name_mapping.insert(*content, global_name);
